@@ -158,10 +158,10 @@ def same(q, obs):
     return all(r["strict"] == q["strict"] and r["relaxed"] == q["relaxed"] for r in obs["runs"])
 
 
-def worker_init(repo):
+def worker_init(repo, assertions=False):
     import os
 
-    os.environ["ANYTREE_ASSERTIONS"] = "0"
+    os.environ["ANYTREE_ASSERTIONS"] = "1" if assertions else "0"
     sys.path.insert(0, repo)
     import anytree  # noqa
 
